@@ -265,7 +265,9 @@ class Interp:
     # ------------------------------------------------------------- truth
     def _record(self, s, node, b, forked):
         if self.record_decisions and forked:
-            s.ts["dec"] = s.ts.get("dec", ()) + ((self.rule.atom_name(self, s, node), b),)
+            name = self.rule.atom_name(self, s, node)
+            # latest decision per atom (bounded in loops)
+            s.ts["dec"] = tuple(x for x in s.ts.get("dec", ()) if x[0] != name) + ((name, b),)
 
     def truth_fork(self, st: State, node: ast.expr):
         """Evaluate a condition. Returns (list[(state, bool)], raises)."""
